@@ -439,6 +439,41 @@ def rq_context_small(route: int, ab: List[bool], nts: List[int]) -> bool:
         return _judge_rq(assoc)
 
 
+@harness(
+    "C12", timeout=(120, 600),
+    functions=["ae:ApplicationEntity.associate", "ae:ApplicationEntity.requested_contexts",
+               "presentation:PresentationContext.context_id", "acse:ACSE.send_request",
+               "pdu_items:PresentationContextItemRQ.from_primitive"],
+    bounds="1..3 requested contexts handed to associate(contexts=...) or the requested_contexts setter that already "
+           "carry a context id (each: none, or any odd id 1..255, solver-symbolic) - e.g. contexts reused from an "
+           "earlier association",
+    stubs=["as rq_ae_title"],
+    outside="more than 3 contexts with pre-assigned ids",
+)
+def rq_preassigned_ids(route: bool, has_id: List[bool], ids: List[int]) -> bool:
+    """
+    pre: 1 <= len(has_id) <= 3 and len(ids) == len(has_id)
+    pre: all(1 <= i <= 255 for i in ids)
+    post: _ == True
+    """
+    with Env():
+        with untraced():
+            ae = AE()
+            cxs = [_cx(VERIF_UID if k % 2 == 0 else CT_UID, TS_POOL[:1]) for k in range(len(has_id))]
+        try:
+            for k in range(len(has_id)):
+                if has_id[k]:
+                    cxs[k].context_id = ids[k]      # the real setter (rejects even / out of range ids)
+            if route:
+                ae.requested_contexts = cxs
+                assoc = ae.associate("127.0.0.1", 11112)
+            else:
+                assoc = ae.associate("127.0.0.1", 11112, contexts=cxs)
+        except API_ERRORS:
+            return True
+        return _judge_rq(assoc)
+
+
 # ---------------------------------------------------------------------------------------------
 # 4. UID legality
 # ---------------------------------------------------------------------------------------------
